@@ -38,7 +38,7 @@ Abs(n) == IF n < 0 THEN 0 - n ELSE n
 ReduceFrac(n, d) == LET g == Gcd(Abs(n), d) IN IF g = 0 THEN <<0, 1>> ELSE <<n \div g, d \div g>>
 
 \* ---- literal syntax of the target ----------------------------------------
-KQ == [esc |-> 92, wm |-> <<42>>, ws |-> <<63>>, add |-> {92}, filt |-> {}, quote |-> 34]
+KQ == [esc |-> 92, wm |-> <<42>>, ws |-> <<63>>, add |-> {92}, filt |-> {}, quote |-> 34, cq |-> FALSE]
 FAIL == [ok |-> FALSE, i |-> 0, e |-> QTrue]
 Res(i, e) == [ok |-> TRUE, i |-> i, e |-> e]
 
